@@ -116,6 +116,9 @@ type pathExec struct {
 	initFailed      map[string]string
 	spec            int
 	covers          map[string]int
+	faultCount      *smt.Term
+	nFaultVars      int
+	maxFaults       int
 	fusions, merges int
 }
 
@@ -762,7 +765,7 @@ type pathOutcome struct {
 func (e *Env) runPath(h *HarnessRun, solver *smt.Solver, prefix []Decision) (px *pathExec) {
 	px = &pathExec{ctx: smt.NewCtx(), solver: solver, h: h, prefix: prefix, maxSteps: e.MaxSteps, unwind: e.Unwind,
 		nameCount: map[string]int{}, asserts: map[string]*AssertStat{}, funcs: map[*ssa.Function]struct{}{},
-		havocKernels: map[string]int{}, strTab: map[string]value{}, floatStrings: map[string][2]*smt.Term{}, initFailed: map[string]string{}, covers: map[string]int{}}
+		havocKernels: map[string]int{}, strTab: map[string]value{}, floatStrings: map[string][2]*smt.Term{}, initFailed: map[string]string{}, covers: map[string]int{}, maxFaults: 1}
 	i := &interpreter{prog: e.Prog, globals: map[*ssa.Global]*value{}, initState: map[*ssa.Package]int{}, px: px, env: e}
 	if rt := e.Prog.ImportedPackage("runtime"); rt != nil {
 		i.runtimeErrorString = rt.Type("errorString").Object().Type()
